@@ -3,7 +3,7 @@
 import json, os, subprocess, sys, time
 ROOT = os.path.dirname(os.path.dirname(os.path.abspath(__file__)))
 sys.path.insert(0, os.path.join(ROOT, "verus"))
-CACHE = os.path.join(ROOT, ".cache", "verus")
+CACHE = os.path.join(os.environ.get("VERIF_WORK", ROOT), ".cache", "verus")
 EXTRACT = os.path.join(ROOT, "tools", "extract", "target", "release", "extract")
 
 def run_verus(repo="/repo", rlimit=30):
